@@ -60,6 +60,12 @@ type c10dScenario struct {
 	SRC      string      `json:"src"`
 	Frames   []c10dFrame `json:"frames"`
 	SettleMS int         `json:"settle_ms"` // how long to wait for the sentinel (default 4000)
+	// status codes the reader uses on the FIRST connection (0 = success): in its SetProtocolVersionResponse
+	// (Connect fails with that status), its SetReaderConfigResponse (onConnect fails with it) and its
+	// CloseConnectionResponse (the Shutdown of resetConn / Stop fails with it)
+	SPVStatus   int `json:"spv_status"`
+	SRCStatus   int `json:"src_status"`
+	CloseStatus int `json:"close_status"`
 	// Reconnect: after the reader closed the stream, wait for the device to dial again
 	Reconnect bool `json:"reconnect"`
 	// AbsOnly: do not run anything, only report what the library's decoder makes of the messages
@@ -171,6 +177,11 @@ func (r *c10dReader) handle(conn net.Conn, n int) {
 		case 46: // GetSupportedVersion: current 1.0.1, supported up to 1.1
 			_ = r.write(conn, c10dMsg(1, 56, id, append([]byte{1 << 5, 2 << 5}, c10dStatus(0)...)))
 		case 47: // SetProtocolVersion
+			if n == 1 && r.sc.SPVStatus != 0 {
+				_ = r.write(conn, c10dMsg(2, 57, id, c10dStatus(r.sc.SPVStatus)))
+				time.Sleep(2 * time.Millisecond)
+				return // negotiation refused: the reader ends the stream
+			}
 			_ = r.write(conn, c10dMsg(2, 57, id, c10dStatus(0)))
 			ver = 2
 		case 3: // SetReaderConfig (the device's onConnect)
@@ -178,8 +189,12 @@ func (r *c10dReader) handle(conn net.Conn, n int) {
 			mode := r.sc.SRC
 			if n > 1 {
 				mode = ""
+			} else if r.sc.SRCStatus != 0 {
+				mode = "status-code"
 			}
 			switch mode {
+			case "status-code":
+				_ = r.write(conn, c10dMsg(ver, 13, id, c10dStatus(r.sc.SRCStatus)))
 			case "status-error":
 				_ = r.write(conn, c10dMsg(ver, 13, id, c10dStatus(100)))
 			case "garbage":
@@ -192,10 +207,14 @@ func (r *c10dReader) handle(conn net.Conn, n int) {
 			default:
 				_ = r.write(conn, c10dMsg(ver, 13, id, c10dStatus(0)))
 			}
-			if n == 1 {
+			if n == 1 || r.sc.SPVStatus != 0 {
 				r.once.Do(func() { close(r.setup) })
 			}
 		case 14: // CloseConnection
+			if n == 1 && r.sc.CloseStatus != 0 {
+				_ = r.write(conn, c10dMsg(ver, 4, id, c10dStatus(r.sc.CloseStatus)))
+				continue // refused: the connection stays up until the device closes it
+			}
 			_ = r.write(conn, c10dMsg(ver, 4, id, c10dStatus(0)))
 			return
 		}
@@ -479,12 +498,16 @@ type c10pReply struct {
 }
 
 type c10pScenario struct {
-	Name      string    `json:"name"`
-	First     string    `json:"first"`
-	Config    c10pReply `json:"config"`   // answer to GetReaderConfig (type 2)
-	Caps      c10pReply `json:"caps"`     // answer to GetReaderCapabilities (type 1)
-	OnClose   string    `json:"on_close"` // "answer" | "ignore" | "error-status" | "drop"
-	TimeoutMS int       `json:"timeout_ms"`
+	Name    string    `json:"name"`
+	First   string    `json:"first"`
+	Config  c10pReply `json:"config"`   // answer to GetReaderConfig (type 2)
+	Caps    c10pReply `json:"caps"`     // answer to GetReaderCapabilities (type 1)
+	OnClose string    `json:"on_close"` // "answer" | "ignore" | "error-status" | "drop"
+	// SPVStatus != 0: SetProtocolVersion is refused with this status (Connect fails with it), the host ends
+	// the stream; CloseStatus: the status of "error-status" (default 100)
+	SPVStatus   int `json:"spv_status"`
+	CloseStatus int `json:"close_status"`
+	TimeoutMS   int `json:"timeout_ms"`
 }
 
 type c10pResult struct {
@@ -570,6 +593,11 @@ func runC10Probe(sc c10pScenario) c10pResult {
 			case 46:
 				_, _ = conn.Write(c10dMsg(1, 56, id, append([]byte{1 << 5, 2 << 5}, c10dStatus(0)...)))
 			case 47:
+				if sc.SPVStatus != 0 {
+					_, _ = conn.Write(c10dMsg(2, 57, id, c10dStatus(sc.SPVStatus)))
+					time.Sleep(2 * time.Millisecond)
+					return
+				}
 				_, _ = conn.Write(c10dMsg(2, 57, id, c10dStatus(0)))
 				ver = 2
 			case 2:
@@ -593,7 +621,11 @@ func runC10Probe(sc c10pScenario) c10pResult {
 				switch sc.OnClose {
 				case "ignore":
 				case "error-status":
-					_, _ = conn.Write(c10dMsg(ver, 4, id, c10dStatus(100)))
+					code := sc.CloseStatus
+					if code == 0 {
+						code = 100
+					}
+					_, _ = conn.Write(c10dMsg(ver, 4, id, c10dStatus(code)))
 				case "drop":
 					return
 				default:
